@@ -1,10 +1,10 @@
 #!/venv/bin/python
 """Runs every claimed check against every seeded change (scratch copies, 16 workers); updates seeded/*/meta.json (detected_by)
-and prints the detection matrix.   usage: seed_matrix.py [--no-write] [seed ids...]"""
+and prints the detection matrix.   usage: seed_matrix.py [--no-write] [--props=C05,C14] [seed ids...]"""
 import json, multiprocessing as mp, shutil, subprocess, sys, tempfile
 from pathlib import Path
 
-VERIF = Path("/verif")
+VERIF = Path(__file__).resolve().parents[1]
 sys.path.insert(0, str(VERIF / "engine"))
 
 
@@ -41,6 +41,9 @@ def main():
     pids = [c["property_id"] for c in json.loads((VERIF / "MANIFEST.json").read_text())["checks"]]
     extra = [p for p in (f"C{i:02d}" for i in range(1, 18)) if (VERIF / "engine/rules" / f"{p.lower()}.py").exists() and p not in pids]
     pids += extra
+    for a in sys.argv[1:]:
+        if a.startswith("--props="):
+            pids = a.split("=", 1)[1].split(",")
     seeds = [d for d in sorted((VERIF / "seeded").iterdir()) if (d / "meta.json").exists() and (not args or d.name in args)]
     with mp.get_context("fork").Pool(16) as pool:
         results = pool.map(one, [(s, pids) for s in seeds])
@@ -55,7 +58,7 @@ def main():
         if not det:
             missed.append(name)
         print(f"{name:8} {flag:7} own={'yes' if own in det else 'no ':3} " + " ".join(f"{p}:{','.join(r)}" for p, r in det.items()) + (f"   ERR {errs}" if errs else ""))
-        if "--no-write" not in sys.argv:
+        if "--no-write" not in sys.argv and not any(a.startswith("--props=") for a in sys.argv):
             meta["detected_by"] = det
             meta["analysis_errors"] = errs
             meta_p.write_text(json.dumps(meta, indent=1) + "\n")
